@@ -375,6 +375,136 @@ impl Prop for SolverMates {
     }
 }
 
+
+// ------------------------------------------------------- exact 4-man families (thorough)
+
+/// K + two white pieces v K: exact soundness and completeness on a stride sample.
+pub struct Tb4Exact {
+    pub families: &'static [(crate::oracle::rules::Kind, crate::oracle::rules::Kind)],
+}
+
+fn judge_tb4(tb4: &crate::oracle::tb4::Tb4, pos: &Pos, depth: u8, seed: u64) -> Result<(Option<Wdl>, usize), String> {
+    let d = tbdata();
+    let value = |p: &Pos| -> Option<Wdl> { if p.men() == 4 { tb4.probe(p) } else { d.tb.probe(p) } };
+    let spec = SearchSpec { depth: Some(depth), seed, workers: 1, sched_seed: None, cancel_after: None };
+    let (out, _) = search::run(pos, &spec, search::new_artifact(seed ^ 1, GEOM), usize::MAX);
+    let what = format!("search of '{}' ({:?})", pos.fen(), spec);
+    if let Some(p) = &out.panic {
+        return Err(format!("{} panicked: {}", what, p));
+    }
+    let root = value(pos);
+    let mut claims = 0;
+    for b in out.best.iter() {
+        search::check_line(pos, &b.line).map_err(|e| format!("{}: {}", what, e))?;
+        if b.eval >= POS_INF {
+            claims += 1;
+            if !matches!(root, Some(Wdl::Win(_))) {
+                return Err(format!("{}: reported the winning terminal evaluation {} but the exact value of the root is {:?}", what, b.eval, root));
+            }
+            let v = value(&pos.apply(&b.line[0]));
+            if !matches!(v, Some(Wdl::Loss(_))) {
+                return Err(format!("{}: reported a forced mate (evaluation {}) with first move {}, after which the opponent's exact value is {:?}, not a loss", what, b.eval, b.line[0].lan(), v));
+            }
+        }
+    }
+    if let Some(Wdl::Win(n)) = root {
+        if n as u8 <= depth {
+            let last = out.best.last().map(|b| b.eval).unwrap_or(i32::MIN);
+            if last < POS_INF {
+                return Err(format!("{}: the side to move mates in {} plies (exact), depth limit {}, but the final evaluation is {}", what, n, depth, last));
+            }
+        }
+    }
+    Ok((root, claims))
+}
+
+impl DynProp for Tb4Exact {
+    fn name(&self) -> &'static str {
+        "four_man_exact"
+    }
+    fn run(&self, ctx: &Ctx, cases: u64) {
+        if cases == 0 {
+            return;
+        }
+        let stride = cases.max(1);
+        for (k1, k2) in self.families.iter() {
+            let t0 = std::time::Instant::now();
+            let tb4 = crate::oracle::tb4::Tb4::build(*k1, *k2, &tbdata().tb, ctx.threads);
+            let build_s = t0.elapsed().as_secs_f64();
+            // self test of the table against the exhaustive solver on a sample (exit 2 on mismatch)
+            let mut x = ctx.seed ^ 0xabcdef;
+            let mut checked = 0;
+            while checked < 1500 {
+                let i = (crate::runner::splitmix(&mut x) % crate::oracle::tb4::SIZE as u64) as usize;
+                let Some(p) = tb4.pos_of(i) else { continue };
+                if p.stm != crate::oracle::rules::Col::W {
+                    continue;
+                }
+                checked += 1;
+                let tbv = tb4.probe(&p);
+                let sv = solver::mate_distance(&p, 5, 2_000_000);
+                let agree = match (tbv, sv) {
+                    (Some(Wdl::Win(n)), Some(Some(m))) => n as u32 == m,
+                    (Some(Wdl::Win(n)), Some(None)) => n > 5,
+                    (_, Some(Some(_))) => false,
+                    _ => true,
+                };
+                if !agree {
+                    eprintln!("HARNESS: 4-man table K{}{}K disagrees with the solver on '{}': table {:?}, solver {:?}", k1.letter(), k2.letter(), p.fen(), tbv, sv);
+                    std::process::exit(2);
+                }
+            }
+            let n = crate::oracle::tb4::SIZE as u64 / stride;
+            let offset = ctx.seed % stride;
+            let fam = format!("K{}{}K", k1.letter(), k2.letter());
+            par_range(ctx, "four_man_exact", n, |j, loc| {
+                let i = (j * stride + offset) as usize;
+                let Some(base) = tb4.pos_of(i) else { return Ok(()) };
+                if !base.has_legal_move() {
+                    return Ok(());
+                }
+                let pos = if (i / 7) % 2 == 1 { base.mirror() } else { base };
+                let depth = 1 + ((i / 3) % 5) as u8;
+                let seed = crate::runner::h64(&(ctx.seed, i as u64, fam.as_str()));
+                loc.eval();
+                match judge_tb4(&tb4, &pos, depth, seed) {
+                    Ok((root, claims)) => {
+                        if let Some(Wdl::Win(w)) = root {
+                            if w as u8 <= depth {
+                                loc.class("won_root_within_depth");
+                                if w >= 3 {
+                                    loc.nontrivial(&(pos.fen4(), depth));
+                                }
+                            }
+                        }
+                        if claims > 0 {
+                            loc.class("mate_claimed");
+                        }
+                        if j % 20_000 == 0 {
+                            loc.sample(|| json!({"family": fam, "fen": pos.fen(), "depth": depth, "exact": format!("{:?}", root)}));
+                        }
+                        Ok(())
+                    }
+                    Err(m) => Err((json!({"family": [k1.letter().to_string(), k2.letter().to_string()], "fen": pos.fen(), "depth": depth, "seed": seed}), m)),
+                }
+            });
+            ctx.part(json!({"check": "four_man_exact", "family": fam, "table_build_s": build_s, "longest_win_plies": tb4.max_win, "stride": stride}));
+            if ctx.violations() > 0 {
+                break;
+            }
+        }
+    }
+    fn replay(&self, ctx: &Ctx, case: &Value) -> Result<(), String> {
+        use crate::oracle::rules::Kind;
+        let kind = |s: &str| match s { "Q" => Kind::Q, "R" => Kind::R, "B" => Kind::B, _ => Kind::N };
+        let f = case["family"].as_array().ok_or("no family")?;
+        let (k1, k2) = (kind(f[0].as_str().unwrap_or("Q")), kind(f[1].as_str().unwrap_or("R")));
+        let pos = Pos::from_fen(case["fen"].as_str().ok_or("no fen")?).ok_or("bad fen")?;
+        let tb4 = crate::oracle::tb4::Tb4::build(k1, k2, &tbdata().tb, ctx.threads);
+        judge_tb4(&tb4, &pos, case["depth"].as_u64().unwrap_or(1) as u8, case["seed"].as_u64().unwrap_or(0)).map(|_| ())
+    }
+}
+
 pub fn plan(ctx: &Ctx) -> Plan {
     let t = ctx.tier;
     let _ = pick_index(0, 1);
@@ -383,6 +513,7 @@ pub fn plan(ctx: &Ctx) -> Plan {
             (Box::new(TbCompleteness), t.pick(8_000, 300_000)),
             (Box::new(TbSoundness { max_depth: 5 }), t.pick(61, 5)),
             (Box::new(SolverMates), t.pick(30_000, 1_000_000)),
+            (Box::new(Tb4Exact { families: &[(crate::oracle::rules::Kind::R, crate::oracle::rules::Kind::R), (crate::oracle::rules::Kind::Q, crate::oracle::rules::Kind::R), (crate::oracle::rules::Kind::Q, crate::oracle::rules::Kind::N)] }), t.pick(0, 401)),
         ],
         rule: "oracle = exact retrograde tablebases for K v K, KQK, KRK, KBK, KNK, KPK built at start-up from the rules \
                oracle (self-checked against the published maxima 19/31/55 plies) and an exhaustive AND/OR mate solver. \
@@ -393,7 +524,10 @@ pub fn plan(ctx: &Ctx) -> Plan {
                with evaluation >= POS_INF needs a tablebase win and a preserving first move; won roots within the depth \
                must be found. Generated sparse positions: exact mate distance <= 5 (<= 3 with more than 7 men) by the \
                solver, then the same completeness rule; the first move is proved to keep the mate by bounded proof search \
-               or counted as undecided - never refuted. Non-trivial = distinct cases with mate distance >= 3, or >= 2 \
+               or counted as undecided - never refuted. Thorough only: exact tables for K + two white pieces v K \
+               (KRRK, KQRK, KQNK; 33 M positions each, self-checked against the solver on 1500 samples each run) give \
+               exact soundness and completeness on a 1/401 stride sample of those families (captures lead into the \
+               3-man tables). Non-trivial = distinct cases with mate distance >= 3, or >= 2 \
                workers with >= 10 baton switches, or drawn roots at depth >= 3.",
         assumptions: &[
             "the mate distance encoded in the score is never used as a bound (entries grafted from other depths make it shorter than the real distance)",
